@@ -307,7 +307,31 @@ class CallMixin:
                 yield self.quantifier(n, e.args[0], st), st
                 return
             if n == 'sum' and len(e.args) == 1 and isinstance(e.args[0], (ast.GeneratorExp, ast.ListComp)):
+                g = e.args[0]
+                # sum(len(x) for x in E): the total length of a list of rows, an uninterpreted function of E
+                # characterised in contracts through prefix sums (A6: builtin sum)
+                if (len(g.generators) == 1 and not g.generators[0].ifs and isinstance(g.generators[0].target, ast.Name)
+                        and isinstance(g.elt, ast.Call) and isinstance(g.elt.func, ast.Name) and g.elt.func.id == 'len'
+                        and len(g.elt.args) == 1 and isinstance(g.elt.args[0], ast.Name) and g.elt.args[0].id == g.generators[0].target.id):
+                    for seq, st1 in self.ev(g.generators[0].iter, st):
+                        seq = self.lift(seq)
+                        if isinstance(seq, Ref) and isinstance(st1.store[seq.id], ObjC):
+                            outs = list(self.getattr(seq, '_data', st1, e))
+                            seq = outs[0][0]
+                        if not (isinstance(seq, Ref) and isinstance(st1.store[seq.id], ListC)):
+                            raise OutOfSubset('sum(len ..) over %r' % (seq,))
+                        c = st1.store[seq.id]
+                        f = z3.Function('total_len', sort_of(c.t), z3.IntSort())
+                        self.externals_used.add('builtin sum (A6) as total_len(rows), characterised by prefix sums in the contract')
+                        yield SV(INT, f(pack(st1, seq, c.t))), st1
+                    return
                 raise OutOfSubset('sum over generator')
+            if n == 'total_len' and st.spec and len(e.args) == 1:
+                seq = self.lift(self.ev1(e.args[0], st))
+                c = st.store[seq.id]
+                f = z3.Function('total_len', sort_of(c.t), z3.IntSort())
+                yield SV(INT, f(pack(st, seq, c.t))), st
+                return
             if n in REG.predicates and n not in st.env:
                 params, body, _ = REG.predicates[n]
                 for vs, st1 in self.ev_list(e.args, st):
